@@ -139,7 +139,7 @@ Proof.
            { constructor; auto. rewrite <- Eq. assumption. }
            rewrite Eq, <- (umerge_skip_eq _ _ _ Sk2).
            specialize (IH (fst a_adv) (snd a_adv)). cbn [bpend] in IH. rewrite Ea in IH.
-           apply IH; auto. cbn [length] in Hf. lia. Show.
+           apply IH; auto; [cbn [length] in Hf; lia|apply andb_false_r].
         -- apply (StepB eq_refl (w_cur a :: w_keys a)); auto. constructor; auto.
 Qed.
 
@@ -147,7 +147,7 @@ Lemma b_next_spec : forall it, bwf it -> next_ok (b_next it) (bpend it).
 Proof.
   induction it as [x|a b IHb aD bD k0]; intros W.
   - cbn [b_next bpend]. unfold advance. destruct x as [c ks src p]. cbn.
-    destruct ks as [|k r]; cbn; eauto. eexists. split; [reflexivity|]. cbn. auto.
+    destruct ks as [|k r]; cbn; [eauto|]. eexists. split; [reflexivity|]. cbn. auto.
   - cbn [b_next]. destruct W as [Sa Wb].
     destruct (aD && bD) eqn:Ed.
     + apply andb_true_iff in Ed. destruct Ed as [-> ->]. cbn. eauto.
